@@ -352,16 +352,21 @@ def run(run):
 
     # ---- correspondence in Coq ----
     corr_bad = []
+    ok_reach = ("fun c : grammar * str * str * bool => let '(g, a, b, r) := c in "
+                "Bool.eqb (reachb g a b) r && reach_closedb g")
     try:
-        bad, dt = lib.coq_run_shards("c06", IMPORTS, OK_DEF, shards)
-        run.cov["coq_seconds_evaluate"] = round(dt, 1)
-        corr_bad += [("evaluate", smeta[k][i]) for (k, i) in bad]
-        bad, dt = lib.coq_run_shards("c06q", IMPORTS, OK_QMM, qshards)
-        run.cov["coq_seconds_qmm"] = round(dt, 1)
-        corr_bad += [("qmm", qmeta[k][i]) for (k, i) in bad]
-        ok_reach = ("fun c : grammar * str * str * bool => let '(g, a, b, r) := c in "
-                    "Bool.eqb (reachb g a b) r && reach_closedb g")
-        bad = lib.coq_mismatches("c06r", IMPORTS, ok_reach, reach_cases, shard=400)[0]
+        import concurrent.futures as cf
+        with cf.ThreadPoolExecutor(max_workers=3) as ex:      # the three Coq stages side by side
+            f_ev = ex.submit(lib.coq_run_shards, "c06", IMPORTS, OK_DEF, shards)
+            f_q = ex.submit(lib.coq_run_shards, "c06q", IMPORTS, OK_QMM, qshards)
+            f_r = ex.submit(lib.coq_mismatches, "c06r", IMPORTS, ok_reach, reach_cases, 400)
+            bad, dt = f_ev.result()
+            run.cov["coq_seconds_evaluate"] = round(dt, 1)
+            corr_bad += [("evaluate", smeta[k][i]) for (k, i) in bad]
+            bad, dt = f_q.result()
+            run.cov["coq_seconds_qmm"] = round(dt, 1)
+            corr_bad += [("qmm", qmeta[k][i]) for (k, i) in bad]
+            bad = f_r.result()[0]
         corr_bad += [("reachable", {"grammar": reach_meta[i][0], "from": reach_meta[i][1], "to": reach_meta[i][2]})
                      for i in bad]
         run.cov["reachability_pairs"] = len(reach_cases)
